@@ -5,6 +5,7 @@ from functools import partial
 import trio
 
 from .base_runner import BaseRunner, OrphanedReturn
+from ..debug import NameRepr
 
 
 class TrioRunner(BaseRunner):
@@ -40,7 +41,9 @@ class TrioRunner(BaseRunner):
             trio.BrokenResourceError,
         ):
             # the channel is closed while the payloads are still cleaning up
-            self._logger.warning(f"discarding payload {payload} during shutdown")
+            self._logger.warning(
+                "discarding payload %s during shutdown", NameRepr(payload)
+            )
             return
         except RuntimeError:
             # trio raises a bare RuntimeError when we are already in the trio thread
@@ -48,7 +51,9 @@ class TrioRunner(BaseRunner):
             try:
                 self._submit_tasks.send_nowait(payload)
             except (trio.ClosedResourceError, trio.BrokenResourceError):
-                self._logger.warning(f"discarding payload {payload} during shutdown")
+                self._logger.warning(
+                    "discarding payload %s during shutdown", NameRepr(payload)
+                )
 
     def run_payload(self, payload: Callable[[], Coroutine]):
         assert self._trio_token is not None and self._submit_tasks is not None
